@@ -286,6 +286,25 @@ PROPS["C14"] = {
 }
 
 
+PROPS["C19"] = {
+    "level": "exploration",
+    "budget_s": {"quick": 70, "thorough": 2400},
+    "modes": [{"name": "opl-file", "runs": {"quick": 2000, "thorough": 50000}, "chunk": 250},
+              {"name": "opl-dir", "runs": {"quick": 3000, "thorough": 80000}, "chunk": 250},
+              {"name": "legacy-file", "runs": {"quick": 1500, "thorough": 40000}, "chunk": 250},
+              {"name": "legacy-dir", "runs": {"quick": 3000, "thorough": 80000}, "chunk": 250}],
+    "rule": ("one run = a simulated directory of 1-3 watched files (OPL .ts, or legacy .json/.yaml/.yml/.toml) and 6-40 (quick) / 6-90 (thorough) tape-chosen steps: edits (replace, truncate-then-write in chunks, remove, re-create) with versions that are valid, syntactically broken, type-incorrect, empty or torn; "
+             "deliveries of pending notifications in any order with faults (duplicate, torn read, read error, dropped - never the last one of a file, coalescing at the end); samples. Each delivery is turned, at that instant, into the watcherx event the real file watcher would produce for the file's content at that instant and sent down the real unbuffered channel into the real startEventHandler loop; "
+             "a third of the deliveries race with a concurrent reader goroutine. Oracle R5 at every sample and after every delivery: for each file the visible namespaces (manager listing, lookups and GET /namespaces) are exactly those of ONE valid version delivered so far (none only before the first valid version or after a delivered removal); "
+             "after faults stop and everything pending is delivered, each file's visible namespaces are those of its current valid content (bounded liveness: one quiescence round). non-trivial = history longer than 8 events; distinct = hash of the history."),
+    "probes": ["delivered_valid", "delivered_syntax", "delivered_type", "delivered_torn", "delivered_remove", "concurrent_reads", "samples", "converged_files", "probe_multi_file", "fault_duplicate", "fault_torn-read", "fault_read-error", "fault_dropped", "fault_partial-state-delivered"],
+    "real": ["keto internal/driver/config: oplConfigWatcher, NamespaceWatcher, memoryNamespaceManager, startEventHandler loop (through the verif-tagged hook file), internal/schema parser and type checker, ghodss/yaml, go-toml, encoding/json, namespacehandler GET /namespaces through the real read router"],
+    "stub": ["fsnotify, the OS file system and watcherx's watcher goroutines: replaced by the simulated directory + notification queue (events built with watcherx's own event types)", "Config key changes (resetNamespaceManager) and websocket/http/base64 locations: out of scope, the property speaks about file changes"],
+    "fault_kinds": {"duplicate": "a notification is delivered twice", "torn-read": "the event carries a strict prefix of the file (opl/json only: a prefix never parses there)", "read-error": "watcherx ErrorEvent instead of content", "dropped": "a notification is lost (never the last one of a file)", "partial-state-delivered": "delivery between truncate and the last chunk"},
+    "assumptions": ["a valid version is recognised by the generator's own tag, not by keto's parser", "YAML/TOML files are only replaced atomically: a prefix of such a file can parse to different content, which no server could tell from a real version", "for the OPL watcher an empty file is a valid version that declares no namespaces"],
+}
+
+
 def evidence(prop, spec, tier, seed, records, deaths, unfinished, planned, wall_s, sim_wall_s, build_s, nworkers, n_new, known_hits):
     runs = 0
     execs = 0
@@ -372,6 +391,9 @@ def evidence(prop, spec, tier, seed, records, deaths, unfinished, planned, wall_
 
 SIM = "deterministic simulation with fault injection"
 MANIFEST_TEXT = {
+ "C19": {"text": "seeded edit histories of watched files with delayed, reordered, duplicated, dropped, torn and failing notifications driven into the real watcher event loop inside a synctest bubble, sampled by readers (some racing with deliveries); keep-last-good / never-partial invariant after every event and convergence once faults stop",
+         "note": "fsnotify and the OS are simulated; events carry the file content at the delivery instant as the real watcher does",
+         "technique": SIM + ": simulated file system and notification transport with fault injection, real event loop, version-history reference model"},
  "C14": {"text": "seeded sets of concurrent requests inside one scheduler bubble with all storage calls interleaved by the tape, each result compared with the request run alone; plus bursts of concurrent requests against a fresh registry under the Go race detector",
          "note": "interleaving at storage-call granularity; the race clause relies on the detector's happens-before analysis and is weak evidence when clean",
          "technique": SIM + ": seeded interleaving of several requests at the storage seam; race-detector build for the data-race clause"},
